@@ -1,8 +1,11 @@
 #!/bin/bash
-# usage: tools/sweep.sh "<seeds>" "<checks>" [tier]   -- one verdict line per (seed, check)
+# usage: tools/sweep.sh "<seeds>" "<checks>" [tier]   -- one verdict line per (seed, check); exit= is the check's own status
 cd "$(dirname "$0")/.."
+T=$(mktemp)
 for s in $1; do for c in $2; do
   st=$(date +%s)
-  out=$(VERIF_SEED=$s ./check $c --tier "${3:-quick}" 2>/dev/null | grep -E "^VIOLATION|^\[C[0-9]+\]|^HARNESS" | cut -c1-220 | tr '\n' ' ')
-  echo "seed=$s $c exit=$? wall=$(( $(date +%s) - st ))s :: $out"
+  VERIF_SEED=$s ./check $c --tier "${3:-quick}" >"$T" 2>/dev/null; rc=$?
+  out=$(grep -E "^VIOLATION|^\[C[0-9]+\]|^HARNESS" "$T" | cut -c1-220 | tr '\n' ' ')
+  echo "seed=$s $c exit=$rc wall=$(( $(date +%s) - st ))s :: $out"
 done; done
+rm -f "$T"
